@@ -141,20 +141,35 @@ def gen_cert_c15(r, ident: str) -> tuple[dict, dict]:
         spec["chain"], spec["root"] = "root", "B"
     else:
         spec["chain"], spec["root"] = ccase, "A"
+    # which root the chain leads to: the private root A (B above), or one of the PUBLIC sim roots that are
+    # in the default bundle only ("unknown_ca" chains lead to the root X that nobody trusts)
+    if spec["root"] == "A" and ccase != "unknown_ca":
+        spec["root"] = r.choices(["A", "P", "Q"], [60, 32, 8])[0]
     spec["validity"] = validity
     if not spec["cn"] and not spec["sans"]:
         spec["cn"] = "nameless"
     spec["org"] = r.choice([None, None, "Example Org"])
     spec["crl"] = None
-    return spec, {"name_case": ncase, "chain_case": ccase, "validity": validity}
+    return spec, {"name_case": ncase, "chain_case": ccase, "validity": validity, "root": spec["root"]}
+
+
+def gen_trust_c15(r) -> dict:
+    """Trust configuration: CA file only | hashed CA directory only | both | neither (default bundle)."""
+    trust = r.choices(["file", "dir", "both", "default"], [28, 36, 16, 20])[0]
+    o = {"trust": trust, "trusted": r.choices([["A"], ["A", "B"], ["B"]], [7, 2, 1])[0]}
+    if trust == "both" and r.random() < 0.5:
+        # file and directory hold different roots: the anchors are the union
+        a, b = r.choice([(["A"], ["B"]), (["B"], ["A"])])
+        o["trusted_file"], o["trusted_dir"] = a, b
+        o["trusted"] = ["A", "B"]
+    return o
 
 
 def gen_c15(rng, tier) -> dict:
     r = rng.at("c15")
     mode = r.choices(MODES, [40, 20, 20, 15, 5])[0]
-    opts = _opts(r, trusted=r.choices([["A"], ["A", "B"], ["B"]], [7, 2, 1])[0])
-    if r.random() < 0.04:
-        opts["trust"] = "certifi"
+    opts = _opts(r)
+    opts.update(gen_trust_c15(rng.at("c15.trust")))
     nflows = 1 if (mode.startswith("reverse") or r.random() < 0.85) else r.randint(2, 3)
     origins, flows, tags = [], [], []
     form = None
